@@ -2,6 +2,7 @@
 from ..rt import check
 
 STREAMS = ["failure"]
+REGENERATE_SRC = True
 RULE = ("gated scenarios against the real ServiceRunner in worker processes (accept() in the main thread): bystanders "
         "(0..3 per flavour: sleeping, spinning, blocked) + one to three failing payloads (flavour x failure kind incl. "
         "every falsy return value x registration: queued, adopted from outside, adopted from inside a payload of each "
